@@ -474,6 +474,23 @@ def generate():
                     info["payload_flag"] = [(lit, "raw")]
         except OSError:
             pass
+    if "feature_of_string" in info["errors"]:
+        # the same for `if feature != "replies" { return Err(..) } features.replies = true;`
+        try:
+            src = open(os.path.join(common.REPO, "sylvia-derive", "src", "parser", "attributes", "features.rs")).read()
+            m = re.search(r"impl\s+Parse\s+for\s+SylviaFeatures\s*\{(.*?)\n\}", src, flags=re.S)
+            body = m.group(1) if m else ""
+            lits = re.findall(r'(\w+)\s*!=\s*"(\w+)"\s*\{\s*return\s+Err', body)
+            sets = re.findall(r"features\s*\.\s*(\w+)\s*=\s*true", body)
+            if len(lits) == 1 and len(sets) == 1 and "match" not in body and '== "' not in body:
+                idx = [i for i, p_ in enumerate(parts) if "feature_of_string" in p_]
+                if idx:
+                    parts[idx[-1]] = ("Definition feature_of_string (s : string) : option string :=\n  if s =? %s then Some %s else\n  None.\n"
+                                      % (common.coq_string(lits[0][1]), common.coq_string(sets[0])))
+                    del info["errors"]["feature_of_string"]
+                    info["feature"] = [(lits[0][1], sets[0])]
+        except OSError:
+            pass
     info["custom_key"] = table("tag", "custom_key_of_string", string_to_tag, "parser/attributes/custom.rs::<CustomasParse>::parse#m0",
                                "custom_key_of_string", r"custom\s*\.\s*(\w+)\b")
     info["msg_arg"] = table("tag", "msg_arg_of_string", string_to_tag, "parser/attributes/msg.rs::<ArgumentParserasParse>::parse#m0",
